@@ -51,7 +51,13 @@ RULE = (
     "the set of keys of the result dictionary whose value is not None, constructor verdict, the attributes that are "
     "not None on the constructed object, lit.lineno; non-trivial = the outcome is not the unmodified file's. pynum: int()/float()/"
     "title()/isdigit()/split()/strip() on seeded strings of the modelled character domain. rctor: IOData(...) on "
-    "seeded array shapes (also mutually inconsistent ones) against the validator model"
+    "seeded array shapes (also mutually inconsistent ones) against the validator model. VASP (rdr:poscar, "
+    "rdr:chgcar, rdr:locpot): corpus files POSCAR*/CHGCAR*/AECCAR*/LOCPOT* (all below 1 kB) plus generated files that "
+    "reach the paths the corpus does not (Cartesian / selective-dynamics headers, counts/symbols of different "
+    "lengths, negative counts, cell or atom lines with other than three numbers, no atoms, grid shape lines with "
+    "0/1/2/4/65 integers at the end of the file, zero-sized grids); an `ok` line of these streams also carries "
+    "atnums.sum() as a value fingerprint, and the real side checks cell (3,3) / 3-d grid data / axes (3,3) on every "
+    "object the constructor accepted"
 )
 ASSUMPTIONS = [
     "character domain of the reader correspondence: printable ASCII, TAB, LF, U+00A0, U+00E9/U+00C9, U+00B2, "
